@@ -50,6 +50,7 @@ type Clause struct {
 
 type LoopContract struct {
 	Invariants []*Clause
+	Iteration  []*Clause // checked at every back edge over the call log of the completed iteration only
 	Decreases  []Expr
 	DecSrc     string
 }
@@ -583,6 +584,12 @@ func (cs *Contracts) LoadContractFile(path, pkg string) error {
 						return err
 					}
 					lc.Invariants = append(lc.Invariants, c)
+				case "iteration":
+					c, err := mkClause("iteration", body, l)
+					if err != nil {
+						return err
+					}
+					lc.Iteration = append(lc.Iteration, c)
 				case "decreases":
 					lc.DecSrc = body
 					for _, t := range splitTop(body) {
@@ -593,7 +600,7 @@ func (cs *Contracts) LoadContractFile(path, pkg string) error {
 						lc.Decreases = append(lc.Decreases, e)
 					}
 				default:
-					return fail(l, "loop N invariant|decreases")
+					return fail(l, "loop N invariant|iteration|decreases")
 				}
 			}
 		}
